@@ -2,6 +2,7 @@ package main
 
 import (
 	"fmt"
+	"os"
 	"go/constant"
 	"go/token"
 	"go/types"
@@ -430,6 +431,52 @@ func revertOnEveryError(fn *ssa.Function, runCall, rev ssa.CallInstruction) (boo
 		})
 		if !ok {
 			return false, "a path from run to the return neither passes the revert nor establishes that the error is nil: some failing executions are not reverted"
+		}
+	}
+	// a return that definitely carries an error (also one assigned after run, such
+	// as the oversized-code error) must have passed the revert on every path
+	if idx := errResultIdx(fn); idx >= 0 {
+		for _, rp := range returnPaths(fn, idx) {
+			if rp.Kind != RetFail || !runCall.Block().Dominates(rp.Block) {
+				continue
+			}
+			if rp.Block == rb {
+				continue
+			}
+			// every feasible path from run through the block that sets the error to the return passes the revert
+			passes, n := true, 0
+			via := rp.Block
+			enumOK := pathsBetween(fn, runCall.Block(), rp.Ret.Block(), 5000, func(blocks []*ssa.BasicBlock, facts []Fact) {
+				through, hit := false, false
+				for i, b := range blocks {
+					if b == via && (rp.To == nil || (i+1 < len(blocks) && blocks[i+1] == rp.To)) {
+						through = true
+					}
+					if b == rb {
+						hit = true
+					}
+				}
+				if !through {
+					return
+				}
+				n++
+				if !hit {
+					passes = false
+					if os.Getenv("YDEBUG") != "" {
+						var bs []string
+						for _, b := range blocks {
+							bs = append(bs, fmt.Sprintf("%d:%s", b.Index, b.Comment))
+						}
+						fmt.Println("DBG via", via.Index, via.Comment, "rb", rb.Index, "path", strings.Join(bs, " "))
+						for _, f := range facts {
+							fmt.Println("    fact", f.Cond, f.Cond.Name(), f.Truth)
+						}
+					}
+				}
+			})
+			if !enumOK || n == 0 || !passes {
+				return false, "the frame can return an error (set after run) on a path that never reverted to the snapshot: the failed frame's state changes, logs and created account survive"
+			}
 		}
 	}
 	return true, ""
